@@ -450,6 +450,17 @@ impl Writer {
         );
 
         // Phase 3: Atomic submission
+        #[cfg(walrus_verif)]
+        if crate::wal::verif_hooks::io_event(crate::wal::verif_hooks::IO_BATCH_SUBMIT) {
+            *cur_offset = revert_info.original_offset;
+            for block_id in revert_info.allocated_block_ids.iter() {
+                FileStateTracker::set_block_unlocked(*block_id as usize);
+            }
+            return Err(std::io::Error::new(
+                std::io::ErrorKind::Other,
+                "injected submission failure",
+            ));
+        }
         match ring.submit_and_wait(write_plan.len()) {
             Ok(_) => {
                 let mut all_success = true;
@@ -458,6 +469,14 @@ impl Writer {
                         let data_idx = cqe.user_data() as usize;
                         let expected_bytes = buffers.get(data_idx).map(|b| b.len()).unwrap_or(0);
                         let result = cqe.result();
+                        #[cfg(walrus_verif)]
+                        let result = match crate::wal::verif_hooks::io_event_indexed(
+                            crate::wal::verif_hooks::IO_ENTRY_WRITE,
+                            data_idx as u64,
+                        ) {
+                            true => -5,
+                            false => result,
+                        };
 
                         if result < 0 {
                             all_success = false;
